@@ -1,6 +1,7 @@
 (* C14 — Routing table converges to the latest valid CLUSTER NODES description.
    Only theorem statements; proofs in Proofs/ClusterProofs.v. *)
 From RcProxy Require Import Base.Bytes Base.Dec Gen.Generated Model.RespBuf Model.Cluster Proofs.ClusterProofs Model.Info Proofs.InfoProofs.
+From RcProxy Require Model.Proxy Proofs.ProxyRouteProofs.
 Open Scope N_scope.
 
 (* the refresh loop survives EVERY probe reply, for every history: it never ends and never panics *)
@@ -138,3 +139,14 @@ Example C14_info_witness :
   | None => False
   end.
 Proof. vm_compute. repeat split. Qed.
+
+(* the event-loop model (Model/Proxy.v, event ETopology) and the ticker model of this property say the
+   same thing about the pools that exist: kept when the node is still there with the same role,
+   re-created empty when the role changed, dropped when the node left; the ticker model adds the
+   pools of nodes that are new *)
+Theorem C14_ticker_agrees_with_event_loop_model : forall pools servers,
+  tick_pools (map ProxyRouteProofs.pool_key pools) servers =
+  map ProxyRouteProofs.pool_key (concat (map (Proxy.topology_pool (map ProxyRouteProofs.node_key servers)) pools)) ++
+  map ProxyRouteProofs.node_key (filter (fun n => negb (memb (cn_addr n) (map Proxy.pp_addr pools))) servers).
+Proof. exact ProxyRouteProofs.ticker_models_agree. Qed.
+Print Assumptions C14_ticker_agrees_with_event_loop_model.
